@@ -5,6 +5,9 @@ from clastic import Response
 from clastic.errors import NotFound, Forbidden, Conflict, ServiceUnavailable, BadRequest
 
 
+from urllib.parse import unquote as _unquote
+
+
 def segs(path):
     return [s for s in path.split('/') if s]
 
@@ -29,10 +32,10 @@ CAT = {
 }
 # in strict mode only patterns whose every match has a single spelling are used
 STRICT_OK = ['/a', '/a/', '/a/b', '/<x>', '/<x>/', '/a/<n:int>', '/<x>/<y>', '/a/<rest+>', '/c/<n:int>/']
-PATHS = ['/a%0A', '/a/b%0A', '/q%0A', '/a/7%0A', '/%0A', '/a%0A/', '/a?v=2', '/a/b?v=2', '/q?v=2', '/a?v=1', '/', '/a', '/a/', '/a/b', '/a/b/', '/a/7', '/b', '/b/q', '/q', '/q/', '/a/b/c', '//a', '/a//b', '/a/7/',
+PATHS = ['/%3Cx%3E', '/a/%3Cn:int%3E', '/%3Crest*%3E', '/b/%3Cx%3F%3E', '/c/%3Cn:int%3E/', '/%3Cx%3E/%3Cy%3E', '/a%0A', '/a/b%0A', '/q%0A', '/a/7%0A', '/%0A', '/a%0A/', '/a?v=2', '/a/b?v=2', '/q?v=2', '/a?v=1', '/', '/a', '/a/', '/a/b', '/a/b/', '/a/7', '/b', '/b/q', '/q', '/q/', '/a/b/c', '//a', '/a//b', '/a/7/',
          '/c/5', '/c/5/', '/c/x/', '/b/', '/a/07']
-METHODS = ['GET', 'HEAD', 'POST', 'PUT', 'DELETE', 'get', 'post', 'FOO', 'OPTIONS']
-METHOD_SETS = [None, None, [], ['GET'], ['POST'], ['get', 'PUT'], ['DELETE', 'POST'], ['HEAD'], ['GET', 'POST', 'PUT']]
+METHODS = ['GET', 'HEAD', 'POST', 'PUT', 'DELETE', 'get', 'post', 'FOO', 'OPTIONS', 'PATCH', 'TRACE', 'CONNECT']
+METHOD_SETS = [None, None, [], ['OPTIONS'], ['PATCH'], ['TRACE'], ['CONNECT'], ['PUT'], ['GET'], ['POST'], ['get', 'PUT'], ['DELETE', 'POST'], ['HEAD'], ['GET', 'POST', 'PUT']]
 OUTCOMES = ['qdep', 'qdep', 'ok', 'ok', 'ok', 'brk404', 'brk503', 'brk409_ret', 'brk400_ret', 'nb403_raise', 'nb404_ret', 'nb404_raise', 'nb403_ret', 'boom']
 class SimTemplateError(LookupError):
     pass
@@ -128,7 +131,7 @@ def seen_path(path):
 
 def path_matches(entry, path):
     """entry: dict(pattern=<catalogue pattern>, prefix=<'' or '/p/q'>, mode=...)"""
-    p = seen_path(path)
+    p = seen_path(_unquote(path.partition('?')[0]))
     s = segs(p)
     pre = segs(entry.get('prefix', ''))
     if s[:len(pre)] != pre:
@@ -145,6 +148,7 @@ def dispatch_model(table, path, method):
     """table: ordered entries {pattern, prefix, mode, methods, out, tag}; path may carry a query string.
     -> dict(status, tag, allow, location)   (sequential model of the one dispatch loop)"""
     path, _, query = path.partition('?')
+    path = _unquote(path)            # the server hands the application the percent-DECODED path
     p = seen_path(path)
     last_nb = None
     allowed = set()
@@ -197,7 +201,7 @@ def compare(exp, got):
     if got['status'] != exp['status']:
         return ('status-%s-not-%s' % (got['status'], exp['status']), 'status %s, expected %s' % (got['status'], exp['status']))
     if exp['status'] == 302:
-        loc = got['location'] or ''
+        loc = _unquote(got['location'] or '')
         if not loc.split('?')[0].endswith(exp['location']) or not loc.split('?')[0].split('://')[-1].partition('/')[2] == exp['location'][1:]:
             return ('redirect-location', 'Location %r, expected path %r' % (loc, exp['location']))
         return None
